@@ -103,7 +103,12 @@ def run_check(mod, ctx, t0):
     proof_problems = []
 
     # 1 translate
-    changed, terr = common.translate(getattr(mod, 'GEN', None))
+    gen = getattr(mod, 'GEN', None)
+    if gen is not None:
+        # plus every translator whose output the property's modules import (transitively), whatever the list says
+        extra = common.gens_imported_by(props_modules)
+        gen = None if extra is None else sorted(set(gen) | set(extra))
+    changed, terr = common.translate(gen)
     if changed:
         ctx.notes.append('regenerated: ' + ', '.join(changed))
     for e in terr:
